@@ -63,6 +63,10 @@ class Search(object):
         self.exhaustive = exhaustive
 
 
+import threading
+_scratch_lock = threading.Lock()
+
+
 class Ctx(object):
     def __init__(self, prop_id, tier, seed):
         self.prop_id = prop_id
@@ -74,10 +78,11 @@ class Ctx(object):
     def scale(self, quick, thorough):
         return thorough if self.thorough else quick
     def mkscratch(self):
-        if self.scratch is None:
-            base = os.path.join(VERIF, '.scratch')
-            os.makedirs(base, exist_ok=True)
-            self.scratch = tempfile.mkdtemp(prefix='%s-' % self.prop_id, dir=base)
+        with _scratch_lock:
+            if self.scratch is None:
+                base = os.path.join(VERIF, '.scratch')
+                os.makedirs(base, exist_ok=True)
+                self.scratch = tempfile.mkdtemp(prefix='%s-' % self.prop_id, dir=base)
         return self.scratch
     def cleanup(self):
         if self.scratch and os.path.isdir(self.scratch):
